@@ -620,8 +620,10 @@ Definition force_fail (s : st) (tid : nat) : st :=
 Definition spec_size (sp : spec) : nat :=
   fold_right (fun t a => length (ts_succ t) + length (ts_err t) + length (ts_compl t) + length (ts_skip t) + a) 0 sp.
 
+(* resume recomputes the commands of every task execution completed while paused: at most
+   spec_size commands each *)
 Definition FUEL (sp : spec) (s : st) : nat :=
-  4 * (length sp + spec_size sp + length (tasks s) + length (backlog s)) + 16.
+  4 * (length sp + spec_size sp + length (tasks s) + length (backlog s)) + 16 + length (tasks s) * spec_size sp.
 
 (* _check_affected_tasks *)
 Definition check_affected (sp : spec) (t : tx) (tid : nat) : tx :=
